@@ -65,8 +65,22 @@ Programs ==
                   Entrypoint("Query", "Home") >>)
     : ct \in {t \in SubSeqs(SeqOfSet(CardChoice)) : Len(t) >= 1 /\ Len(t) <= MaxCard}, h \in HomeChoice }
 
+\* every list / non-null wrapper combination up to two list levels, over an object type (wp0..wp11: [Pet] .. [[Pet!]!]!) and
+\* a scalar (wi0..wi11) -- added after seeded/C27-fast-path-drops-inner-list-wrappers, which is wrong only for [[T!]!]! /
+\* [[T]!]! of OBJECT type; the hand-picked fields above had [[Pet]] and [[Pet!]]! only.  Two programs: all object
+\* wrappers, all scalar wrappers (aliases on every second one).
+WrapNames(pre) == [i \in 1..12 |-> pre \o ToString(i - 1)]
+WrapperPrograms ==
+  { Program(<< Component("User", "Card", <<>>,
+                         [i \in 1..12 |-> IF i % 2 = 0 THEN LinkedA(WrapNames("wp")[i], "a" \o ToString(i), <<>>, <<Scalar("nickname")>>)
+                                                        ELSE Linked(WrapNames("wp")[i], <<Scalar("nickname")>>)]),
+               Component("Query", "Home", <<>>, HomeVariants[1]), Entrypoint("Query", "Home") >>),
+    Program(<< Component("User", "Card", <<>>,
+                         [i \in 1..12 |-> IF i % 2 = 0 THEN ScalarA(WrapNames("wi")[i], "b" \o ToString(i), <<>>) ELSE Scalar(WrapNames("wi")[i])]),
+               Component("Query", "Home", <<>>, HomeVariants[1]), Entrypoint("Query", "Home") >>) }
+
 VARIABLE prog
-Init == prog \in Programs
+Init == prog \in Programs \cup WrapperPrograms
 Next == UNCHANGED prog
 Spec == Init /\ [][Next]_prog
 
